@@ -295,6 +295,9 @@ bool
 Linear_Expression_Impl<Dense_Row>
 ::all_zeroes_except(const Variables_Set& vars,
                     dimension_type start, dimension_type end) const {
+  if (start == end) {
+    return true;
+  }
   if (start == 0) {
     if (row[0] != 0) {
       return false;
